@@ -60,8 +60,12 @@ func exec(op string) vlib.Res {
 		return execProofName(f)
 	case "ttl calc":
 		return execTTL(f)
+	case "authfilter check":
+		return execAuthFilter(f)
 	case "l3 advance":
 		return sysAdvance(f)
+	case "l3 ta":
+		return sysTA(f)
 	case "filter zone":
 		return execFilterZone(f)
 	case "rootds check":
@@ -140,6 +144,8 @@ func gen(r *vlib.R, n int, tier string, emit func(string)) {
 				} else {
 					emit(fmt.Sprintf("proofname check %s %s", vlib.Pick(r, []string{"sub.zone.test", "a.b.c.example.com", "test", ".", "www.%666f6f2e626172.test"}), tf(r)))
 				}
+			case 2:
+				emit(genAuthFilter(r))
 			default:
 				emit(genFilterZone(r))
 			}
@@ -251,6 +257,8 @@ func shapeFacts(out map[string]any) {
 	out["shape_key_fetch_is_validated"] = false
 	out["shape_wildcard_proof_from_filtered_authority"] = false
 	out["shape_validated_denial_keeps_signer_zone_only"] = false
+	out["shape_dname_target_ad_anded_whatever_the_target_carries"] = false
+	out["shape_soa_beside_ns_goes_through_allowlist"] = false
 	out["shape_cd_fetch_only_before_explicit_validation"] = false
 	fset := token.NewFileSet()
 	file, err := parser.ParseFile(fset, filepath.Join(repoDir(), "middleware/resolver/resolver.go"), nil, 0)
@@ -342,6 +350,54 @@ func shapeFacts(out map[string]any) {
 			})
 			first := posOfCall(fd.Body, "findRRSIGSigners")
 			out["shape_anchor_gate_"+name] = gate != 0 && first != 0 && gate < first
+			// (6) answer(): `resp.AuthenticatedData = resp.AuthenticatedData && targetMsg.AuthenticatedData` is reached whatever the
+			//     DNAME target leg carries: no enclosing `if` looks at targetMsg.Answer (an empty-answer denial from an unsigned
+			//     target must take AD away just as records do)
+			if name == "answer" {
+				var stack []ast.Node
+				good, seen := true, false
+				ast.Inspect(fd.Body, func(x ast.Node) bool {
+					if x == nil {
+						stack = stack[:len(stack)-1]
+						return true
+					}
+					stack = append(stack, x)
+					as, isAs := x.(*ast.AssignStmt)
+					if !isAs || len(as.Lhs) != 1 || len(as.Rhs) != 1 {
+						return true
+					}
+					l, isSel := as.Lhs[0].(*ast.SelectorExpr)
+					be, isBin := as.Rhs[0].(*ast.BinaryExpr)
+					if !isSel || !isBin || l.Sel.Name != "AuthenticatedData" || be.Op != token.LAND {
+						return true
+					}
+					mentionsTarget := false
+					ast.Inspect(be, func(y ast.Node) bool {
+						if id, ok := y.(*ast.Ident); ok && id.Name == "targetMsg" {
+							mentionsTarget = true
+						}
+						return true
+					})
+					if !mentionsTarget {
+						return true
+					}
+					seen = true
+					for _, anc := range stack {
+						if is, ok := anc.(*ast.IfStmt); ok {
+							ast.Inspect(is.Cond, func(y ast.Node) bool {
+								if sel, ok := y.(*ast.SelectorExpr); ok && sel.Sel.Name == "Answer" {
+									if id, ok := sel.X.(*ast.Ident); ok && id.Name == "targetMsg" {
+										good = false
+									}
+								}
+								return true
+							})
+						}
+					}
+					return true
+				})
+				out["shape_dname_target_ad_anded_whatever_the_target_carries"] = seen && good
+			}
 			// (4) answer(): the authority section is cut down to the signer zone (`resp.Ns = …FilterRRsToZone(resp.Ns, signer)`)
 			//     before the wildcard no-closer-match check reads NSEC records from it
 			if name == "answer" {
@@ -398,6 +454,19 @@ func shapeFacts(out map[string]any) {
 				p := posOfCall(fd.Body, "rootParentDS")
 				out["shape_root_ds_from_anchors_"+name] = p != 0 && first != 0 && p < first
 			}
+		case "processAuthoritySection":
+			// an SOA beside NS records: the section goes through filterAuthorityRecords (SOA/NSEC/NSEC3/RRSIG allow-list)
+			// before authority() validates it — the signature check skips authority NS records
+			fa, au := posOfCall(fd.Body, "filterAuthorityRecords"), token.Pos(0)
+			ast.Inspect(fd.Body, func(x ast.Node) bool {
+				if c, ok := x.(*ast.CallExpr); ok {
+					if sel, ok := c.Fun.(*ast.SelectorExpr); ok && sel.Sel.Name == "authority" && c.Pos() > fa && au == 0 {
+						au = c.Pos()
+					}
+				}
+				return true
+			})
+			out["shape_soa_beside_ns_goes_through_allowlist"] = fa != 0 && au != 0
 		case "resolve":
 			// a bare NXDOMAIN and the "no answer, no authority" NOERROR are handed to authority():
 			// the function's last statement returns r.authority(...), and inside the
